@@ -197,8 +197,10 @@ func (Area) Gen(r *rand.Rand, tier string, emit func(string)) {
 		if r.Intn(8) == 0 {
 			l.Pool = targets[:2] // "c" has no pooled connection: Unavailable
 		}
-		if i%2 == 1 { // churn: two targets, two services, frequent close / re-watch
+		if i%3 == 1 { // churn: two targets, two services, frequent close / re-watch
 			l.Ops = c06.GenHistory(r, 2+r.Intn(maxOps-1), true, claimMutateWith(svcPool[:2]))
+		} else if i%3 == 2 { // contest: three claimants, two services (release of contested services, fix D31)
+			l.Ops = c06.GenHistoryMode(r, 3+r.Intn(maxOps-2), c06.ModeContest, claimMutateWith(svcPool[:2]))
 		} else {
 			l.Ops = c06.GenHistory(r, 2+r.Intn(maxOps-1), false, claimMutate)
 		}
